@@ -76,6 +76,11 @@ NAME_MODES = ['str', 'int0', 'empty0', 'person']        # candidate naming: 'c3'
 _CNAME = __import__('re').compile(r'c\d+')
 
 
+_PERSONS = {}          # naming mode 'person': ONE Person object per candidate and history, shared by all its calls and runs
+                       # (identity-hashed objects: new objects per call would make set iteration order, hence outcomes that
+                       # depend on it, differ between the runs for a reason that has nothing to do with state)
+
+
 class _Dec:
     def __init__(self, mode=None):
         self.memo = {}
@@ -128,8 +133,10 @@ class _Dec:
         if isinstance(x, str) and self.mode in ('int0', 'empty0', 'person') and _CNAME.fullmatch(x):
             if self.mode == 'int0':
                 return int(x[1:])
-            if self.mode == 'person':       # candidate objects with identity semantics, new ones for every call
-                return self.obj(['Person', x, int(x[1:])])
+            if self.mode == 'person':       # candidate objects with identity semantics
+                if x not in _PERSONS:
+                    _PERSONS[x] = self.obj(['Person', x, int(x[1:])])
+                return _PERSONS[x]
             return '' if x == 'c0' else x
         return x
 
@@ -1279,6 +1286,7 @@ def run_history(case):
     calls = case['calls']
     obs = {'fresh': [], 'shared': [], 'repeat': [], 'mutated': [], 'drift': [], 'mstate': [], 'defaults': [],
            'rng': [], 'rng_fresh': []}
+    _PERSONS.clear()
     pre = check_defaults()          # pollution left over by earlier cases is not this case's
     m0 = _module_state()
     # fresh instances first (nothing of this history has happened yet)
@@ -1522,7 +1530,7 @@ REQUIRED_COUNTERS = ['every_class', 'singleton', 'pav_cache_grows', 'pav_small_a
                      'draw:RandomUnrankedBallotSelector.evaluate', 'draw_via:initial_allocation', 'draw_via:direct_transfer',
                      'draw_via:next_count', 'foreign_first', 'model:dispatch', 'raise_first', 'call_after_exception',
                      'call_after_refusal', 'refusal_first', 'prev_gains_then_none', 'larger_then_smaller', 'smaller_after_larger',
-                     'hash_alike', 'hash_alike:mersenne', 'hash_alike:neg', 'hash_alike:key_order', 'module_function',
+                     'foreign_first:other_parameters', 'hash_alike', 'hash_alike:mersenne', 'hash_alike:neg', 'hash_alike:key_order', 'hash_alike:numtype', 'module_function',
                      'ctor_param_nondefault', 'names:int0', 'names:empty0', 'names:person', 'shared_rank3', 'zero_votes2',
                      'name_clash', 'prev_absent_party'] + ['num:' + m for m in NUM_MODES] + ['foreign_first:' + w for w in
                                                                                 ('TieBreaking', 'PostConverted', 'PreConverted', 'FixedSeatCount')]
@@ -1576,7 +1584,7 @@ RANDOM_FAMILY = ['Sortitor', 'Sortitor:seed8', 'Sortitor:unseeded', 'RandomUnran
 
 def generate(rng, tier):
     TG = TARGETS()
-    reps = 3 if tier == 'quick' else 40
+    reps = 3 if tier == 'quick' else 20
     names = list(TG)
     # (1) every class / singleton, single shared instance
     for name in names:
@@ -1647,7 +1655,7 @@ def generate(rng, tier):
     yield from _state_directed(rng, TG, names if tier == 'quick' else names * 4)
     yield from _stv_refusals(rng, TG, 20 if tier == 'quick' else 200)
     # (5e) inputs that hash alike or are equal up to key order, against an isolated reference
-    yield from _hash_alike(rng, TG, 45 if tier == 'quick' else 400)
+    yield from _hash_alike(rng, TG, 120 if tier == 'quick' else 800)
     # (6) a class found by reflection that the table does not know: try it with no arguments on simple votes
     for qn in untabled_classes():
         yield _mk(['Plurality'], [dict(c_eval_simple_sel(rng), t=0)], ['untabled_class:' + qn])
@@ -1747,6 +1755,17 @@ def _foreign_first(rng, TG, n):
               ('RankedToPositionalVotes', 'RankedToPositionalVotes:dowdall'), ('STAR', 'STAR:rp'),
               ('HighestAverages', 'HighestAverages:sl'), ('QuotaDistributor', 'QuotaDistributor:sub'),
               ('RankedVoteValidator', 'RankedVoteValidator:perrank'), ('SubsettedVotes', 'SubsettedVotes:ranked')]
+    by_cls = {}
+    for nm, t in TG.items():
+        if not nm.startswith(('dispatch:', 'fn:', 'singleton:')) and not t.get('model') and t.get('seed') is None and not t.get('random'):
+            by_cls.setdefault(t['cls'], []).append(nm)
+    multi = [v for v in by_cls.values() if len(v) >= 2]
+    for k in range(max(8, n)):          # two differently parameterised objects of one class, the foreign one first
+        a, b = rng.sample(multi[k % len(multi)], 2)
+        calls = [dict(TG[b]['gen'](rng), t=1), dict(TG[a]['gen'](rng), t=0), dict(TG[b]['gen'](rng), t=1), dict(TG[a]['gen'](rng), t=0)]
+        case = _mk([a, b], calls, _tag_calls(TG, [a, b], calls, ['foreign_first', 'foreign_first:other_parameters']))
+        case['foreign'] = [1]
+        yield case
     for k in range(max(4, n // 4)):
         a, b = others[k % len(others)]
         if rng.random() < 0.5:
@@ -1781,6 +1800,26 @@ def _bump_count(arg, delta=None, neg=False):
     return a if done[0] else None
 
 
+def _retype_counts(arg, kind):
+    """the same VALUES in another numeric type (1 == Fraction(1) == Decimal(1) == 1.0 and they hash alike)"""
+    hit = [False]
+
+    def conv(v):
+        if isinstance(v, int) and not isinstance(v, bool):
+            hit[0] = True
+            return {'F': f'{v}/1'} if kind == 0 else {'X': str(v)} if kind == 1 else {'fl': repr(float(v))}
+        return v
+
+    def go(x):
+        if isinstance(x, dict) and 'D' in x:
+            return {'D': [[k, go(v) if isinstance(v, dict) else conv(v)] for k, v in x['D']]}
+        if isinstance(x, dict) and 'L' in x:
+            return {'L': [conv(v) for v in x['L']]}
+        return x
+    a = go(json.loads(json.dumps(arg)))
+    return a if hit[0] else None
+
+
 def _neg_count(arg):
     """the first integer count set to -1 (partner of -2)"""
     a = json.loads(json.dumps(arg))
@@ -1792,22 +1831,29 @@ def _neg_count(arg):
 
 HASH_TARGETS = ['fn:core.get_n_best', 'fn:util.sorted_votes', 'fn:util.descending_dict', 'Plurality', 'HighestAverages',
                 'LargestRemainder', 'QuotaSelector:select', 'InputOrderSelector', 'TieBreaking', 'PureProportionality',
-                'fn:util.distribution_to_selection', 'AbsoluteThreshold', 'RelativeThreshold', 'InvertedSimpleVotes']
+                'fn:util.distribution_to_selection', 'AbsoluteThreshold', 'RelativeThreshold', 'InvertedSimpleVotes',
+                'fn:util.exact_mean', 'fn:util.sum_dicts', 'RoundedVotes']
 
 
 def _hash_alike(rng, TG, n):
-    """consecutive inputs that hash alike (x vs x + 2^61 - 1, -1 vs -2) or are equal up to key order; the reference for the
-    second call is the call alone in a fresh interpreter (a module-level memo is shared by 'fresh' instances too)"""
+    """consecutive inputs that hash alike (x vs x + 2^61 - 1, -1 vs -2), are equal up to key order, or are equal in value
+    but of another numeric type; the reference for the second call is the call alone in a fresh interpreter (a module-level
+    memo is shared by 'fresh' instances too)"""
     names = list(TG)
-    for k in range(n):
-        name = HASH_TARGETS[k % len(HASH_TARGETS)] if k % 3 else rng.choice(names)
+    kinds = ['mersenne', 'neg', 'key_order', 'numtype0', 'numtype1', 'numtype2']
+    plan = [(nm, kd) for nm in HASH_TARGETS for kd in kinds]
+    plan += [(rng.choice(names), rng.choice(['mersenne', 'numtype0', 'numtype1', 'numtype2'])) for _ in range(max(0, n - len(plan)))]
+    for name, kind in plan:
         t = TG[name]
         c = dict(t['gen'](rng), t=0)
         if not c['a']:
             continue
-        kind = ['mersenne', 'neg', 'key_order'][k % 3] if name in HASH_TARGETS else 'mersenne'
         a0 = c['a'][0]
-        if kind == 'mersenne':
+        if kind.startswith('numtype'):
+            # the Rat models of PAV / Borda cover int and Fraction counts (Decimal x Fraction raises TypeError in the library)
+            b0 = _retype_counts(a0, 0 if t.get('model') in ('pav', 'borda') else int(kind[-1]))
+            kind = 'numtype'
+        elif kind == 'mersenne':
             b0 = _bump_count(a0)
         elif kind == 'neg':
             a0 = _neg_count(a0)
@@ -1984,7 +2030,8 @@ def _num_transform(x, mode, state):
             if isinstance(v, int) and not isinstance(v, bool):
                 state[0] += 1
                 if mode == 'zero':
-                    v = [0, {'F': '0/1'}, {'X': '0'}][state[0] % 3] if state[0] % 2 else v
+                    zs = [0, {'F': '0/1'}] if len(state) > 1 and state[1] else [0, {'F': '0/1'}, {'X': '0'}]
+                    v = zs[state[0] % len(zs)] if state[0] % 2 else v
                 else:
                     v = _num_value(v, mode, state[0])
             elif isinstance(v, dict):
@@ -2036,7 +2083,9 @@ def generate(rng, tier):       # noqa: naming and numeric modes, structural tags
             mode = 'int0' if r < 0.1 else 'empty0' if r < 0.2 else 'person'
             if models & {'rankval', 'scoreval'} and mode == 'int0':
                 mode = 'empty0'
-            if models & {'pav', 'borda', 'rankval', 'scoreval'} and mode == 'person':
+            # …and not against a reference from another interpreter (other objects, other addresses, other set order)
+            if mode == 'person' and (models & {'pav', 'borda', 'rankval', 'scoreval'} or case.get('foreign') is not None
+                                     or case.get('ref_calls') is not None):
                 mode = 'empty0'
             case['names'] = mode
             case['_tags'] = case['_tags'] + ['names:' + mode]
@@ -2045,12 +2094,16 @@ def generate(rng, tier):       # noqa: naming and numeric modes, structural tags
             mode = NUM_MODES[int(r / 0.3 * len(NUM_MODES)) % len(NUM_MODES)]
             # score aggregation materialises one list element per vote (known, DESIGN 11.1): no big counts on score ballots
             score = '{"S": [{"T": [' in json.dumps(case['calls'])
-            if not (mode == 'float' and models & {'pav', 'borda'}) and not (score and mode in ('big', 'big53', 'huge')):
-                st = [0]
+            # PAV multiplies Fraction coefficients with the counts: Decimal counts raise TypeError there (a numeric-type
+            # limitation of the library, not a matter of state), which the Rat model does not mirror
+            pav_dec = 'pav' in models and mode in ('dec', 'dec7')
+            if not (mode == 'float' and models & {'pav', 'borda'}) and not (score and mode in ('big', 'big53', 'huge')) \
+                    and not pav_dec:
+                st = [1 if 'pav' in models else 0, bool(models & {'pav', 'borda'})]      # [counter, no Decimal zeros]
                 for c in case['calls']:
                     if c['a']:
                         c['a'][0] = _num_transform(c['a'][0], mode, st)
-                if st[0]:
+                if st[0] > (1 if 'pav' in models else 0):
                     case['_tags'] = case['_tags'] + ['num:' + mode]
         if any(t.get('param') or ':' in t['name'] and not t['name'].startswith(('fn:', 'singleton:', 'dispatch:', 'scorer:'))
                for t in ts):
